@@ -2,7 +2,7 @@
    Parsing and printing only; every result is computed by extracted code.
    One request per line (mode argument `aggfn`), one answer line per request.
      (<fn> <tree>)
-        fn   = count | regr_count | sum_i64 | sum_i128 | sum_f | avg_i | avg_f | avg_dec:<scale>
+        fn   = count | regr_count | sum_i64 | sum_i128 | sum_u64 | avg_u64 | sum_f | avg_i | avg_f | avg_dec:<scale>
              | var_pop | var_samp | stddev_pop | stddev_samp | covar_pop | covar_samp | corr | regr_r2
              | regr_slope | regr_avgx | regr_avgy | min | max | bit_and | bit_or | bool_and | bool_or
              | first_i | first_s | string_agg:<sep hex>
@@ -81,6 +81,8 @@ let answer (fn : string) (t : sexp) : string =
   | "regr_count" -> go count_agg spec_count pq s_z t
   | "sum_i64" -> go (sum_chk (zs "64")) spec_sum p_int s_optz t
   | "sum_i128" -> go (sum_chk (zs "128")) spec_sum p_int s_optz t
+  | "sum_u64" -> go sum_u64 spec_sum p_int s_optz t
+  | "avg_u64" -> go avg_u64 spec_avg_i p_int s_fres t
   | "sum_f" -> go sum_f spec_sum_f p_rat s_fres t
   | "avg_i" -> go avg_i spec_avg_i p_int s_fres t
   | "avg_f" -> go avg_f spec_avg_f p_rat s_fres t
